@@ -54,12 +54,12 @@ type Runner struct {
 	Hooks Hooks
 	Res   *Result
 
-	stale     bool              // cached handle: a write happened since the last reset/reopen
+	stale     bool               // cached handle: a write happened since the last reset/reopen
 	offered   map[K]map[int]bool // generations the handle under test returned so far
-	warm      map[K]bool        // keys read through the handle under test since the last reset/reopen
-	rotated   map[K]bool        // keys that had a rotation
-	destroyed bool              // some destroy operation was executed
-	times     map[int64]int // distinct listing creation times, numbered in order of first sight
+	warm      map[K]bool         // keys read through the handle under test since the last reset/reopen
+	rotated   map[K]bool         // keys that had a rotation
+	destroyed bool               // some destroy operation was executed
+	times     map[int64]int      // distinct listing creation times, numbered in order of first sight
 	stop      bool
 	step      int
 	op        Op
@@ -168,6 +168,9 @@ func (r *Runner) apply(op Op) {
 		h := r.M.H(k)
 		hadCurrent := h.NewestSurvivor() != nil && !h.HeadDestroyed()
 		var err error
+		if fx.Format() == "v1" && hadCurrent && !r.clockPastHistory(k) {
+			return
+		}
 		if r.guard("generate", func() { err = fx.Generate(k.Kind, k.ID) }) {
 			return
 		}
@@ -248,6 +251,28 @@ func (r *Runner) apply(op Op) {
 	default:
 		r.Violate(true, "harness:op", "unknown operation %q", op.Kind)
 	}
+}
+
+// clockPastHistory guards a v1 rotation: the old key file is backed up under the name "current
+// time in nanoseconds", so a backup could only collide with (and overwrite) an earlier one if the
+// clock has not moved past the newest name already in the key's history directory. That is
+// checked by observation before rotating; if it ever is the case the run is discarded as
+// inconclusive (the clock is not used as an oracle).
+func (r *Runner) clockPastHistory(k K) bool {
+	var ds []keystore.KeyDescription
+	var err error
+	if r.guard("list-rotated", func() { ds, err = r.Obs.ListRotatedKeys() }) || err != nil {
+		return !r.stop // a failing listing is reported by the next comparison
+	}
+	rows, _ := r.rows(r.Obs, ds)
+	now := time.Now()
+	for _, x := range rows {
+		if x.K == k && x.Time != nil && !now.After(*x.Time) {
+			r.Res.Discard = "collision: the clock has not advanced past the newest history file of " + k.String()
+			return false
+		}
+	}
+	return true
 }
 
 func (r *Runner) noteRead() {
@@ -516,7 +541,7 @@ func (r *Runner) checkCurrent(via Fixture, exact bool, k K, who string) {
 		case h.HeadDestroyed():
 			r.noCurrent(h, fmt.Sprintf("%s handle: reading the current key fails: %v", who, errs(err)))
 		default:
-			r.Violate(true, "current-read-error:"+r.shape(h)+"@"+r.Fx.Format(), "%s handle: reading the current key of %s failed (%v), expected %s", who, k, err, exp.Label())
+			r.Violate(true, "current-read-error:"+r.shape(h)+"@"+r.Fx.Format(), "%s handle: reading the current key of %s failed (%v), expected %s", who, k, errs(err), exp.Label())
 		}
 		return
 	}
@@ -596,9 +621,9 @@ func (r *Runner) checkAll(via Fixture, exact bool, k K, who string) {
 			return
 		}
 		if exact {
-			r.Violate(true, "all-keys-error:"+r.shape(h)+"@"+fmtv, "%s handle: reading all keys of %s failed (%v), expected %s", who, k, err, Labels(required))
+			r.Violate(true, "all-keys-error:"+r.shape(h)+"@"+fmtv, "%s handle: reading all keys of %s failed (%v), expected %s", who, k, errs(err), Labels(required))
 		} else {
-			r.Violate(true, "cache-lost-offered-key:"+fmtv, "%s (cache not reset since the last write): reading all keys of %s failed (%v), although the surviving %s were offered earlier", r.Fx.Name(), k, err, Labels(required))
+			r.Violate(true, "cache-lost-offered-key:"+fmtv, "%s (cache not reset since the last write): reading all keys of %s failed (%v), although the surviving %s were offered earlier", r.Fx.Name(), k, errs(err), Labels(required))
 		}
 		return
 	}
